@@ -178,7 +178,12 @@ func Serialise(toks []Tok, r *rand.Rand) []byte {
 			case strings.HasPrefix(t.D, "[CDATA["):
 				b.WriteString("<!" + t.D + ">")
 			default:
-				b.WriteString("<!--" + t.D + "-->")
+				// the tokenizer decodes character references in comment data: what would end the comment is written as a reference
+				d := t.D
+				if strings.Contains(d, "-->") || strings.Contains(d, "--!>") || strings.HasPrefix(d, ">") || strings.HasPrefix(d, "->") {
+					d = strings.NewReplacer("&", "&amp;", ">", "&gt;").Replace(d)
+				}
+				b.WriteString("<!--" + d + "-->")
 			}
 		case "doctype":
 			b.WriteString("<!" + pick(r, "DOCTYPE", "DOCTYPE", "doctype", "DocType") + " " + t.D + ">")
